@@ -105,7 +105,11 @@ pub fn probe(opts: &Opts) -> i32 {
                 post
             );
             // "a store that does open answers every call without panicking"
+            let skip_workload = opts.u64("noworkload", 0) == 1;
             let probe = std::panic::catch_unwind(std::panic::AssertUnwindSafe(|| {
+                if skip_workload {
+                    return;
+                }
                 let _ = store.range_query(b"", &[0xff; 8], 1000);
                 let _ = store.insert(b"verif-probe-key", b"verif-probe-value");
                 let _ = store.get(b"verif-probe-key");
